@@ -27,6 +27,7 @@ func runC09(c *report.Ctx) {
 	ruleMinedCreditShortcutBlockOnly(c)
 	ruleUnminedCreditCheckedPerOutput(c)
 	ruleEveryRecordedSpenderConsidered(c)
+	ruleEveryRelevantOutputCredited(c) // an output already recorded must refuse the transaction, not be skipped
 	rulePendingInputRowOwners(c)
 
 	c.Rule("settle-pairing", "confirmation, conflict removal and rollback move a transaction between the pending and the mined buckets completely (every part of the record) and in the order that keeps the confirming transaction out of its own conflict purge", 9)
@@ -237,31 +238,7 @@ func runC09(c *report.Ctx) {
 		}
 	}
 
-	// ---- records re-read from bucket m carry no relevance lists ----------------------------
-	c.Rule("unmined-record-typestate", "records decoded from bucket m (readRawUnmined) have empty RelevantTxIn/RelevantTxOut; no function reachable from removeConflict may consult those lists", 3)
-	txrec := p.Type(pkgTxmgr, "TxRecord")
-	if removeConflict != nil && txrec != nil {
-		reached, parent := p.Reach([]*ssa.Function{removeConflict}, an.ReachOpts{})
-		n := 0
-		for f := range reached {
-			if !p.InModule(f) || f.Blocks == nil {
-				continue
-			}
-			n++
-			bad := false
-			for _, fname := range []string{"RelevantTxIn", "RelevantTxOut"} {
-				for _, r := range fieldReads(f, txrec, fname) {
-					// only reads on a record that is this function's parameter (or removeConflict's own)
-					bad = true
-					w := p.Witness(parent, f)
-					c.Fail(sk(f)+":reads-TxRecord."+fname, "reachable from removeConflict, which is handed records decoded from bucket m whose "+fname+" is empty: the loop body never runs and the entry is never released", posOf(c, r), w...)
-				}
-			}
-			if !bad {
-				c.OK(sk(f), "does not consult the relevance lists", p.Pos(f.Pos()))
-			}
-		}
-	}
+	ruleUnminedRecordTypestate(c)
 
 	// ---- selection uses the flag ------------------------------------------------------
 	ruleEligibility(c, "pending")
@@ -338,4 +315,35 @@ func mustPassExceptAtom(c *report.Ctx, f *ssa.Function, set map[*ssa.Function]bo
 		}
 		c.OK(construct, d, p.Pos(f.Pos()))
 	}
+}
+
+// ruleUnminedRecordTypestate (C09, C02): records re-read from bucket m carry no relevance lists.
+func ruleUnminedRecordTypestate(c *report.Ctx) {
+	p := c.P
+	removeConflict := fn(c, pkgTxmgr, "TxStore", "removeConflict")
+	c.Rule("unmined-record-typestate", "records decoded from bucket m (readRawUnmined) have empty RelevantTxIn/RelevantTxOut; no function reachable from removeConflict may consult those lists", 3)
+	txrec := p.Type(pkgTxmgr, "TxRecord")
+	if removeConflict != nil && txrec != nil {
+		reached, parent := p.Reach([]*ssa.Function{removeConflict}, an.ReachOpts{})
+		n := 0
+		for f := range reached {
+			if !p.InModule(f) || f.Blocks == nil {
+				continue
+			}
+			n++
+			bad := false
+			for _, fname := range []string{"RelevantTxIn", "RelevantTxOut"} {
+				for _, r := range fieldReads(f, txrec, fname) {
+					// only reads on a record that is this function's parameter (or removeConflict's own)
+					bad = true
+					w := p.Witness(parent, f)
+					c.Fail(sk(f)+":reads-TxRecord."+fname, "reachable from removeConflict, which is handed records decoded from bucket m whose "+fname+" is empty: the loop body never runs and the entry is never released", posOf(c, r), w...)
+				}
+			}
+			if !bad {
+				c.OK(sk(f), "does not consult the relevance lists", p.Pos(f.Pos()))
+			}
+		}
+	}
+
 }
